@@ -64,6 +64,7 @@ var c05Msg = mkSpace("message", []fieldDim{
 	{"Extra", []string{"", "response-fields"}},
 	{"ProtoB", []string{"", "redirect"}},
 	{"Optional", []string{"", "all"}},
+	{"KeyFault", []string{"", world.FaultError, world.FaultNilRecord, world.FaultNoCert, world.FaultNoKey}},
 })
 
 type c05Case struct {
